@@ -1,6 +1,7 @@
 package chainsim
 
 import (
+	"errors"
 	"fmt"
 	"math/big"
 	mrand "math/rand"
@@ -104,6 +105,11 @@ func execLedger(prop string, p *Plan, col *kernel.Collector) []kernel.Violation 
 	mrand.Seed(int64(HashPlan(p) & 0x7fffffffffffffff))
 	u, err := Build(&p.Recipe)
 	if err != nil {
+		if errors.Is(err, ErrOracleRejected) {
+			// the validator refuses a block the repository's own block builder made
+			// from valid transactions: the two execute transactions differently
+			return []kernel.Violation{{Class: "own-built-block-rejected", Detail: err.Error()}}
+		}
 		col.Inc("universe_build_failed")
 		return nil
 	}
@@ -165,6 +171,75 @@ func execLedger(prop string, p *Plan, col *kernel.Collector) []kernel.Violation 
 	}
 	kernel.SetNonTrivial()
 	return c.vs
+}
+
+// invalidTxProbes: after the transactions of block id, on copies of the state,
+// the next transaction of the block would be one that the statement says makes
+// the whole block invalid - the state transition must refuse it (the error is
+// what block processing and the block builder return) - or one exactly on the
+// affordable side of the boundary, which must be applied.
+func (l *ledgerRun) invalidTxProbes(id int, st *state.StateDB, header *types.Header, gasLeft uint64) {
+	u, c := l.u, l.chainRun
+	if gasLeft < 50000 {
+		return
+	}
+	signer := types.MakeSigner(u.Cfg, header.Number)
+	ki := id % len(u.Keys)
+	from, to := u.Addrs[ki], u.Addrs[(ki+1)%len(u.Addrs)]
+	balance, nonce := st.GetBalance(from), st.GetNonce(from)
+	price := big.NewInt(1_000_000_000)
+	gasCost := new(big.Int).Mul(price, big.NewInt(21000))
+	if balance.Cmp(new(big.Int).Mul(gasCost, big.NewInt(4))) < 0 {
+		return
+	}
+	spare := new(big.Int).Sub(balance, gasCost) // what is left for the value after prepaying the gas
+	hugePrice := new(big.Int).Add(new(big.Int).Div(balance, big.NewInt(21000)), big.NewInt(1))
+	type probe struct {
+		name    string
+		nonce   uint64
+		value   *big.Int
+		gas     uint64
+		price   *big.Int
+		data    []byte
+		invalid bool
+	}
+	probes := []probe{
+		{"nonce-too-high", nonce + 1, big.NewInt(1), 21000, price, nil, true},
+		{"cannot-prepay-gas", nonce, big.NewInt(0), 21000, hugePrice, nil, true},
+		{"cannot-afford-value-after-gas", nonce, new(big.Int).Add(spare, big.NewInt(1)), 21000, price, nil, true},
+		{"value-equals-whole-balance", nonce, new(big.Int).Set(balance), 21000, price, nil, true},
+		{"gas-limit-below-intrinsic", nonce, big.NewInt(1), 20999, price, nil, true},
+		{"gas-limit-below-intrinsic-with-data", nonce, big.NewInt(1), 21000 + 68*3 + 4 - 1, price, []byte{1, 0, 2, 3}, true},
+		{"gas-limit-above-gas-left-in-block", nonce, big.NewInt(1), gasLeft + 1, price, nil, true},
+		{"exactly-affordable", nonce, new(big.Int).Set(spare), 21000, price, nil, false},
+		{"gas-limit-equals-gas-left-in-block", nonce, big.NewInt(1), gasLeft, price, nil, false},
+	}
+	if nonce > 0 {
+		probes = append(probes, probe{"nonce-too-low", nonce - 1, big.NewInt(1), 21000, price, nil, true})
+	}
+	for _, pr := range probes {
+		if !pr.invalid && new(big.Int).Add(new(big.Int).Mul(pr.price, new(big.Int).SetUint64(pr.gas)), pr.value).Cmp(balance) > 0 {
+			continue // the sender cannot prepay this much gas: not a boundary case for this state
+		}
+		tx, err := types.SignTx(types.NewTransaction(pr.nonce, to, pr.value, pr.gas, pr.price, pr.data), signer, u.Keys[ki])
+		if err != nil {
+			continue
+		}
+		cp := st.Copy()
+		gp := new(core.GasPool).AddGas(gasLeft)
+		used := new(uint64)
+		cp.Prepare(tx.Hash(), common.Hash{}, 0)
+		_, _, aerr := core.ApplyTransaction(u.Cfg, u.O, nil, gp, cp, header, tx, used, vm.Config{})
+		l.col.Inc("invalid_tx_probes")
+		switch {
+		case pr.invalid && aerr == nil:
+			c.add("invalid-transaction-applied/"+pr.name, id, "after block id %d: a transaction (%s: nonce %d vs account nonce %d, value %v, gas %d x price %v, balance %v, gas left in block %d) was applied instead of invalidating the block", id, pr.name, pr.nonce, nonce, pr.value, pr.gas, pr.price, balance, gasLeft)
+			return
+		case !pr.invalid && aerr != nil:
+			c.add("affordable-transaction-refused/"+pr.name, id, "after block id %d: %s (value %v, gas %d x price %v, balance %v, gas left %d) refused: %v", id, pr.name, pr.value, pr.gas, pr.price, balance, gasLeft, aerr)
+			return
+		}
+	}
 }
 
 // replayBlock re-executes block id on a copy of the oracle's parent state one
@@ -251,7 +326,7 @@ func (l *ledgerRun) replayBlock(id int, oget refmodel.Getter) {
 				c.add("transaction-created-coins", id, "block id %d tx %d (kind %d): total supply rose from %v to %v while executing a transaction", id, i, kind, cur, after)
 				return
 			}
-			if after.Cmp(cur) < 0 && kind != TxSelfDestruct {
+			if after.Cmp(cur) < 0 && kind != TxSelfDestruct && kind != TxSelfDestructLoop {
 				c.add("transaction-destroyed-coins-without-selfdestruct", id, "block id %d tx %d (kind %d): total supply fell from %v to %v", id, i, kind, cur, after)
 				return
 			}
@@ -287,7 +362,7 @@ func (l *ledgerRun) replayBlock(id int, oget refmodel.Getter) {
 		// the reported figure is at least half the intrinsic gas in those templates
 		// and at least the intrinsic gas in all others
 		floor := intr
-		if kind == TxSelfDestruct || kind == TxSetStorage || kind == TxExtSize {
+		if kind == TxSelfDestruct || kind == TxSelfDestructLoop || kind == TxSetStorage || kind == TxExtSize {
 			floor = (intr + 1) / 2
 		}
 		if gas < floor || gas > tx.Gas() {
@@ -303,6 +378,9 @@ func (l *ledgerRun) replayBlock(id int, oget refmodel.Getter) {
 		switch kind {
 		case TxSelfDestruct, TxForward, TxCallThenRevert:
 			recipients[common.BytesToAddress(tx.Data()[12:32])] = true
+		case TxSelfDestructLoop:
+			recipients[common.BytesToAddress(tx.Data()[12:32])] = true
+			recipients[common.BytesToAddress(tx.Data()[44:64])] = true
 		}
 		if !recipients[from] && from != header.Coinbase {
 			want := new(big.Int).Sub(bSender, fee)
@@ -377,6 +455,12 @@ func (l *ledgerRun) replayBlock(id int, oget refmodel.Getter) {
 			return
 		}
 	}
+	if l.prop == "C06" {
+		l.invalidTxProbes(id, st, header, b.GasLimit()-cum)
+		if len(c.vs) > 0 {
+			return
+		}
+	}
 	if cum != b.GasUsed() || cum > b.GasLimit() {
 		c.add("block-gas-wrong", id, "block id %d: sum of receipt gas %d, header gas used %d, gas limit %d", id, cum, b.GasUsed(), b.GasLimit())
 		return
@@ -402,7 +486,7 @@ func (l *ledgerRun) replayBlock(id int, oget refmodel.Getter) {
 			c.add("block-created-more-than-issuance", id, "block id %d (#%v, %d uncles): supply grew by %v, scheduled issuance %v", id, num, len(un), delta, iss)
 			return
 		}
-		if delta.Cmp(iss) != 0 && !hasKind(u.TxMeta[id], TxSelfDestruct) && !hf4 {
+		if delta.Cmp(iss) != 0 && !hasKind(u.TxMeta[id], TxSelfDestruct) && !hasKind(u.TxMeta[id], TxSelfDestructLoop) && !hf4 {
 			c.add("block-issuance-not-exact", id, "block id %d (#%v, %d uncles, no self-destruct): supply grew by %v, scheduled issuance %v", id, num, len(un), delta, iss)
 			return
 		}
@@ -524,6 +608,12 @@ func (l *ledgerRun) nodeLedger(i int, n *Node) {
 	}
 	for _, id := range path {
 		b := u.Blocks[id]
+		if h := u.Cfg.GetHF(4); h != nil && h.Cmp(b.Number()) == 0 {
+			// the one-time de-allocation happens before the block's transactions
+			for _, a := range HF4Addrs {
+				bal[common.HexToAddress(a)] = new(big.Int)
+			}
+		}
 		signer := types.MakeSigner(u.Cfg, b.Number())
 		receipts := n.BC.GetReceiptsByHash(b.Hash())
 		if len(receipts) != len(b.Transactions()) {
@@ -552,7 +642,7 @@ func (l *ledgerRun) nodeLedger(i int, n *Node) {
 			get(b.Coinbase()).Add(get(b.Coinbase()), fee)
 			val := tx.Value()
 			switch kind {
-			case TxTransfer, TxSetStorage, TxLog, TxExtSize:
+			case TxTransfer, TxSetStorage, TxLog, TxExtSize, TxFundDealloc:
 				get(from).Sub(get(from), val)
 				get(*tx.To()).Add(get(*tx.To()), val)
 			case TxForward:
@@ -571,6 +661,21 @@ func (l *ledgerRun) nodeLedger(i int, n *Node) {
 						get(ben).Add(get(ben), amount)
 					}
 					sdAlive[caddr] = false
+				}
+			case TxSelfDestructLoop:
+				target := common.BytesToAddress(tx.Data()[12:32])
+				ben := common.BytesToAddress(tx.Data()[44:64])
+				get(from).Sub(get(from), val)
+				if sdAlive[target] {
+					// call 1 pays out the balance, call 2 brings the call value and pays it
+					// out again, call 3 finds nothing; the contract is gone afterwards
+					amount := new(big.Int).Add(get(target), val)
+					bal[target] = new(big.Int)
+					get(ben).Add(get(ben), amount)
+					sdAlive[target] = false
+				} else {
+					// no code there any more: the second call is a plain transfer
+					get(target).Add(get(target), val)
 				}
 			case TxCreate, TxRevert, TxOutOfGas, TxCallThenRevert, TxCreateFail, TxCreateDirect:
 				// no value moves (value-less, or the execution fails and the transfer is rolled back)
